@@ -4,7 +4,7 @@
 //
 //	VERIF_TRACE=<file>       append one line per operation point
 //	VERIF_CRASH_AT=<k>       os.Exit(137) immediately before performing point k
-//	VERIF_FAIL_AT=<k>:<err>  point k fails with EIO|ENOSPC|EACCES and touches nothing
+//	VERIF_FAIL_AT=<k>:<err>  point k fails with EIO|ENOSPC|EACCES|EPERM|EEXIST and touches nothing
 //
 // Operation points are numbered from 0 in execution order. Stat-like calls are not
 // points. Only operations on regular paths opened through the seam are points;
@@ -58,6 +58,10 @@ func init() {
 					failErr = syscall.ENOSPC
 				case "EACCES":
 					failErr = syscall.EACCES
+				case "EPERM":
+					failErr = syscall.EPERM
+				case "EEXIST":
+					failErr = syscall.EEXIST
 				}
 			}
 			active = true
